@@ -16,7 +16,10 @@ CONFIG = {
               "same SET of literals as a consistent list A - any order, any repetition - has the key of A), C17_same_set_one_cycle (sequential "
               "requests for one set in any spellings page through ONE cycle: the statement of C17_disjoint_within_cycle for all of them together), "
               "C17_same_set_concurrent (the same for every interleaving of the repaired protocol), C17_key_v0_refuted (the code before F19, key = "
-              "sorted LIST: `enum a 1` and `enum a 1 1` both get [0;1]; with F19 the second gets [2;3])",
+              "sorted LIST: `enum a 1` and `enum a 1 1` both get [0;1]; with F19 the second gets [2;3]). "
+              "WHO shares a cursor (repair F21 of finding K2, repo_patches/F21-cursor-per-model.patch + hook H3b): the cursor map of Model/Cursor.v is "
+              "the field Ddnnf.enumeration_cursor behind an Arc - clone() shares it, so the stream workers (clones of ONE loaded model) page through "
+              "it together as the theorems presuppose, while two separately loaded instances have two maps (C16_cursor_per_model)",
     "assumptions": [
         "configurations are abstracted to their index in the fixed enumeration order of their assumption key (the order itself is C06's model); count(A) > 0 and amount > 0 where the theorems say so",
         "atomicity of the reserve step = mutual exclusion of std::sync::Mutex; the compute step touches only the worker's own clone (checked by the controlled runs: every schedule of the lock/unlock points gives the model's answers)",
@@ -26,6 +29,12 @@ CONFIG = {
         "through eight spellings sequentially: one cursor per set (oracle: nothing twice within a cycle, a sequential order exists, final cursor; H3 snapshot: no "
         "cursor entry besides the two keys); the checker recomputes every request's key with the extracted enum_key (DIFF request-key otherwise). "
         "Without repo_patches/F19-enum-cursor-key-set.patch applied to /repo this check reports VIOLATION (enum:duplicate-literal-key; K12)",
+        "cursor ownership (F21): hook H3b = per-instance reset / snapshot (Ddnnf::verif_reset_enumeration_cursor / verif_enumeration_cursor_snapshot; every snapshot of "
+        "a controlled run is read through a clone of the case's instance); 6 / 24 generated models each in mode clones (8 requests round-robin to an instance and "
+        "two clones of it: all answers together must be ONE sequential run from position 0, final cursor read through a clone; signature enum:clones-separate-cursors) "
+        "and mode independent (every request to instance X, then to a separately loaded instance Y of the same file: the answers of X and of Y must each be a sequential "
+        "run from position 0 of their own; signature enumerate:cursor-shared-across-models, a detector without a finding line since F21); built against a /repo without "
+        "H3b the harness falls back to the process-global reset / snapshot and mode independent reports VIOLATION",
         "the oracle compares with the implementation's own sequential full cycle from cursor 0 (ref) and needs C06 (that cycle has count(A) distinct configurations; count(A) from the truth table of the source formula)",
     ],
     "rule": "one case = one (model, request list) with all its runs (every enumerated or random schedule, or one free-running "
